@@ -884,13 +884,27 @@ impl World {
                     exts.add_or_replace(ext).map_err(|e| e.to_string())?;
                     mg.update_group_context_extensions(&m.provider, exts, &signer).map_err(|e| e.to_string())?.0
                 }
+                "update_identity" | "prop_update" => {
+                    // a leaf update whose credential carries ANOTHER member's Nostr identity but keeps the own signature key
+                    let ident = if kind == "update_identity" { target_pk.ok_or("no target")? } else { own_pk };
+                    let cwk = CredentialWithKey {
+                        credential: BasicCredential::new(ident.to_bytes().to_vec()).into(),
+                        signature_key: own_leaf.signature_key().clone(),
+                    };
+                    let params = LeafNodeParameters::builder().with_credential_with_key(cwk).build();
+                    if kind == "update_identity" {
+                        mg.self_update(&m.provider, &signer, params).map_err(|e| e.to_string())?.into_commit()
+                    } else {
+                        mg.propose_self_update(&m.provider, &signer, params).map_err(|e| e.to_string())?.0
+                    }
+                }
                 _ => return Err("unknown raw kind".into()),
             };
             out.tls_serialize_detached().map_err(|e| e.to_string())
         })());
         let payload = match payload { Ok(p) => p, Err(e) => return fail(&e) };
         let Some(ev) = self.wrap_raw(c, g, payload, ts, rank) else { return fail("wrap") };
-        let ekind = if kind == "prop_remove" { "prop" } else { "commit" };
+        let ekind = if kind == "prop_remove" || kind == "prop_update" { "prop" } else { "commit" };
         let name = self.register_event(ev, ekind, g, c, &parent, ts, rank, None);
         if ekind == "commit" { self.pending_name.insert((c.to_string(), g.to_string()), name.clone()); }
         json!({"op":"Raw","c":c,"g":g,"kind":kind,"arg":arg,"res":"Ok","e":name,"ts":ts,"rank":rank,"now":0,
